@@ -963,3 +963,36 @@ func ruleFreelistReadVerbatim(c *Ctx, id string) {
 		c.check(id+":freelist.(*shared).Read:verbatim", rd, rd.Pos(), "Read hands the freelist page's ids to Init unfiltered (copied and sorted only): a page listed twice stays listed twice for Tx.Check to report", bad == "" && n >= 1, bad)
 	})
 }
+
+// ---------------------------------------------------------------------------------------------
+// C09.R13  span-removals-precede-insertions
+//
+// The hash-map backend indexes every free span three times (freemaps by size, forwardMap by first page, backwardMap
+// by LAST page). Wherever a span is replaced by a span that shares an end page with it — the remainder of a split in
+// Allocate, the union of a merge in mergeWithExistingSpan — the old span must be removed BEFORE the new one is
+// inserted: delSpan after addSpan deletes the backwardMap (or forwardMap) entry the insertion just wrote, the span
+// can no longer be found by its end page, later releases are not merged with it and a run that exists is reported
+// as unavailable although the array backend finds it (seed C09d).
+func ruleSpanRemovalsPrecedeInsertions(c *Ctx, id string) {
+	c.rule(id, "span-removals-precede-insertions", 2, func() {
+		n := 0
+		for _, fn := range c.P.FnsIn(freelistPath) {
+			adds := callsIn(fn, "freelist.(*hashMap).addSpan")
+			dels := callsIn(fn, "freelist.(*hashMap).delSpan")
+			if len(adds) == 0 || len(dels) == 0 {
+				continue
+			}
+			n++
+			bad := ""
+			for _, a := range adds {
+				r := reach([]ssa.Instruction{a.(ssa.Instruction)}, nil, nil, nil)
+				for _, d := range dels {
+					if r[d.(ssa.Instruction)] {
+						bad = "delSpan at " + c.P.Position(d.Pos()) + " can run after addSpan at " + c.P.Position(a.Pos())
+					}
+				}
+			}
+			c.check(id+":"+shortFn(fn)+":del-before-add", fn, fn.Pos(), "where a span is replaced, every delSpan precedes every addSpan (the two spans share an end page in backwardMap / a first page in forwardMap)", bad == "", bad)
+		}
+	})
+}
